@@ -238,7 +238,7 @@ def drv_llgrad(rng):
 def drv_llgrad_mode(log_domain):
   def d(rng):
     from libsigopt.compute.log_likelihood import GaussianProcessLogMarginalLikelihood
-    g = _GP(rng, mean=True)
+    g = _GP(rng, n=rng.randint(5, 6), mean=True)   # at most dim + 1 <= 4 polynomial terms: more points than terms
     gp = g.gp
     sf = rng.choice([1.0, 0.25])
     ll = GaussianProcessLogMarginalLikelihood(gp.covariance, gp.historical_data, gp.mean_poly_indices, log_domain=log_domain, scaling_factor=sf)
